@@ -95,6 +95,14 @@ pub fn programs(tier: Tier) -> ProgramSet {
             }
         }
     }
+    // declaration context: enum, table and glue inside a fn body
+    {
+        let mut s = EnumSpec::base(3);
+        s.name = "En".into();
+        s.variants[1].disabled = true;
+        s.syntax.push("in-fn".into());
+        add("B3 + v1.disabled + context: declared inside a fn body".to_string(), s, &mut out);
+    }
     // SCALE: wide tables (more slots than any hand-written test; reduced write alphabet, see explore)
     for n in (if tier == Tier::Quick { vec![9usize] } else { vec![9usize, 12] }) {
         let mut s = EnumSpec::base(0);
